@@ -346,6 +346,7 @@ func TestProp(t *testing.T) {
 	}
 	r.Rule(fmt.Sprintf("enum: every assignment of {answers, refuses, closes early, silent, KRB-ERROR, response-too-big (UDP)} to each (KDC, transport) endpoint x udp_preference_limit in {1, below the request size, above it}: n=1 all %d; n=2 %d (thorough: all 2700; quick: a seeded 1/9 slice with <= 1 silent endpoint); n=3 (thorough) all assignments with <= 2 non-refusing endpoints; non-trivial = >= 1 faulty endpoint", n1, n2))
 	var mu sync.Mutex
+	var retry []Case
 	seenKey := map[string]bool{}
 	evid.Parallel(len(jobs), 250, func(i int) {
 		c := jobs[i]
@@ -375,8 +376,30 @@ func TestProp(t *testing.T) {
 		}
 		r.Count(nt, lab...)
 		r.Sample(lab[2]+"/"+lab[0], c)
-		r.Violation("enum", c, Eval(c))
+		v := Eval(c)
+		if !v.OK {
+			// hundreds of cases run at once: before reporting, the case must fail again on its own (a listener starved of
+			// CPU for longer than the library's 5 s timeout is not a verdict on gokrb5)
+			mu.Lock()
+			retry = append(retry, c)
+			mu.Unlock()
+			return
+		}
+		r.Violation("enum", c, v)
 	})
+	for _, c := range retry {
+		// server order is random per attempt, so a real defect may need a few tries to show again
+		failed := false
+		for k := 0; k < 4 && !failed; k++ {
+			if v := Eval(c); !v.OK {
+				r.Violation("enum", c, v)
+				failed = true
+			}
+		}
+		if !failed {
+			r.Label("failed-under-load-but-passed-4-times-alone")
+		}
+	}
 	if r.Thorough() {
 		r.Exhaustive("all fault assignments for n=1 and n=2 KDCs x three udp_preference_limit classes")
 	} else {
